@@ -96,6 +96,16 @@ class Angle(EdgeData):
     def scale(self, ratio, origin=None):
         """Axis is not to be scaled"""
 
+    def rotate(self, angle, axis, origin=None):  # noqa: ARG002
+        """Axis is a direction, not a point: the origin of rotation must not displace it"""
+        self.axis.rotate(angle, axis, [0, 0, 0])
+        return self
+
+    def mirror(self, normal, origin=None):  # noqa: ARG002
+        """Axis is a direction, not a point: the origin of the mirror plane must not displace it"""
+        self.axis.mirror(normal, [0, 0, 0])
+        return self
+
     @property
     def parts(self):
         return [self.axis]
